@@ -550,6 +550,8 @@ func rulesC14(c *Ctx) {
 	ruleC14Direction(c, cts)
 	ruleEntityBucketDescent(c, "C14.ENTITYBUCKET")
 	ruleBucketMemoInvalidated(c, "C14.BUCKETMEMO")
+	ruleReadIndexNoCreate(c, "C14.READNOCREATE")
+	ruleCursorValidity(c, "C14.VALIDNIL", "C14.VALIDSRC", "boltz", "ast")
 	ruleC14Wrap(c)
 }
 
